@@ -13,10 +13,30 @@ def expanded(case):
     return case
 
 
+def doc_triples(case, triples):
+    """the statement list of the document: the abstract triples plus the re-stated ones (case["dups"] = [[index of the statement
+    to repeat, position of the copy], ...]); a document may state a triple more than once, the graph is still the set"""
+    doc = list(triples)
+    for i, pos in case.get("dups") or []:
+        doc.insert(pos % (len(doc) + 1), triples[i % len(triples)])
+    return doc
+
+
+@st.composite
+def dups(draw, g, type_only=None):
+    """0-3 statements to repeat; type_only: None = any statement, True = only instantiation statements"""
+    n = len(g["triples"])
+    idx = [i for i in range(n) if (not type_only) or g["triples"][i][1] == g["inst_prop"]]
+    if not idx:
+        return []
+    k = draw(st.integers(1, 3))
+    return [[draw(st.sampled_from(idx)), draw(st.integers(0, n + 3))] for _ in range(k)]
+
+
 def base_kwargs(case):
     g = gg.expand(case["g"])
     triples = triples_from_json(g["triples"])
-    kw = dict(raw_graph=to_nt(triples), instantiation_property=g["inst_prop"])
+    kw = dict(raw_graph=to_nt(doc_triples(case, triples)), instantiation_property=g["inst_prop"])
     kw.update(case.get("cfg", {}))
     tgt = case.get("target", {"mode": "all"})
     if tgt["mode"] == "all":
